@@ -88,7 +88,43 @@ func narrowingRule(c *Ctx, rule string, pkgs map[string]bool, min int) {
 			val := cx.Lin(cv.X)
 			okB, _ := cx.Entails(facts, bounds.Konst(limit).Add(val, -1))
 			if !okB {
-				okB = narrowBoundedByCallers(p, f, cv.X, limit)
+				okB = narrowBoundedByCallers(p, f, cv.X, limit, 1, 0)
+			}
+			if okB {
+				// arithmetic continued in the narrow type wraps as well: uint32(len(x))*8
+				for _, ref := range *cv.Referrers() {
+					bo, isBO := ref.(*ssa.BinOp)
+					if !isBO || (bo.X != ssa.Value(cv) && bo.Y != ssa.Value(cv)) {
+						continue
+					}
+					if bb, okBits := intBits(bo.Type()); !okBits || bb != to {
+						continue
+					}
+					other := bo.Y
+					if bo.Y == ssa.Value(cv) {
+						other = bo.X
+					}
+					k, isK := guard.ConstInt(other)
+					var mul, add int64
+					switch {
+					case bo.Op == token.MUL && isK && k > 0:
+						mul = k
+					case bo.Op == token.SHL && isK && k >= 0 && k < 62 && bo.X == ssa.Value(cv):
+						mul = 1 << uint(k)
+					case bo.Op == token.ADD && isK && k >= 0:
+						mul, add = 1, k
+					default:
+						continue
+					}
+					scaled := bounds.Konst(limit - add).Add(val, -mul)
+					okW, _ := cx.Entails(cx.FactsToLin(guard.InstrFacts(bo)), scaled)
+					if !okW {
+						okW = narrowBoundedByCallers(p, f, cv.X, limit, mul, add)
+					}
+					r.Check(okW, rule, key+" "+bo.Op.String()+" in the narrow type", p.Pos(bo.Pos()),
+						fmt.Sprintf("a length-derived value is multiplied/offset (%s %d) in a %d-bit type without a guard bounding the result: it wraps for large inputs, so distinct inputs produce the same encoded length", bo.Op, k, to),
+						fmt.Sprintf("result bounded by a dominating guard (<= %d)", limit))
+				}
 			}
 			r.Check(okB, rule, key, p.Pos(ins.Pos()), fmt.Sprintf("a length-derived value (%s) is converted to a %d-bit integer without a dominating guard bounding it: for inputs of 2^%d bytes or more the value wraps, so distinct inputs produce the same encoded length", val, to, to),
 				fmt.Sprintf("bounded by a dominating guard (<= %d)", limit))
@@ -154,7 +190,7 @@ func lenDerivedRaw(v ssa.Value, depth int) bool {
 // narrowBoundedByCallers: v is len(param) (through conversions) in an unexported
 // helper; the bound holds when every call site of the helper in the module is a
 // static call dominated by a guard bounding the length of the argument passed.
-func narrowBoundedByCallers(p *core.Program, f *ssa.Function, v ssa.Value, limit int64) bool {
+func narrowBoundedByCallers(p *core.Program, f *ssa.Function, v ssa.Value, limit, mul, add int64) bool {
 	for {
 		if cv, ok := v.(*ssa.Convert); ok {
 			v = cv.X
@@ -197,7 +233,7 @@ func narrowBoundedByCallers(p *core.Program, f *ssa.Function, v ssa.Value, limit
 		}
 		cx := bounds.NewCtx(site.Parent())
 		facts := cx.FactsToLin(guard.InstrFacts(site.(ssa.Instruction)))
-		if okS, _ := cx.Entails(facts, bounds.Konst(limit).Add(cx.LenOf(cc.Args[idx]), -1)); !okS {
+		if okS, _ := cx.Entails(facts, bounds.Konst(limit-add).Add(cx.LenOf(cc.Args[idx]), -mul)); !okS {
 			return false
 		}
 	}
